@@ -476,6 +476,77 @@ def run_problem(spec, rec):
     rec.case(spec, len(argmin) >= 2, [spec["cls"], "all=%s" % want_all, "n=%d" % n])
 
 
+# ---------------------------------------------------------------------------
+# stale: models that are the result of earlier library calls and still report a variable whose terms cancelled.
+# Which variables the returned assignment covers is not pinned for such models (see SEEDED.md, C09-2A), so the
+# demand is only: no exception, the exact minimum, and an assignment that covers every variable occurring in a term
+# (nothing beyond the reported variables) and attains the minimum.
+
+def stale_cases():
+    def for_kind(kind):
+        spin, quad = gen.is_spin(kind), gen.is_quad(kind)
+        return gen.label_pool(gen.is_matrix(kind), 2, 5).flatmap(lambda labels: st.fixed_dictionaries({
+            "kind": st.just(kind), "labels": st.just(labels),
+            "terms": gen.poly_strategy(labels[1:], 5, 2 if quad else 3, gen.SMALL_INT_COEFS, repeats=False, min_terms=1,
+                                       quad=quad, spin=spin),
+            "first": st.booleans(), "all": st.booleans(),
+            "derive": st.sampled_from(["none", "copy", "add0", "mul2", "neg2", "ctor"]),
+        }))
+    return st.sampled_from(gen.ALL_KINDS).flatmap(for_kind)
+
+
+def run_stale(spec, rec):
+    import qubovert as qv
+    kind, labels = spec["kind"], list(spec["labels"])
+    spin = gen.is_spin(kind)
+    ghost = labels[0]                      # occurs in no generated term
+    with warnings.catch_warnings():
+        warnings.simplefilter("ignore")
+        M = gen.cls_of(qv, kind)()
+
+        def build():
+            if spec["first"]:
+                M[(ghost,)] += 1
+            for k, v in spec["terms"]:
+                M[tuple(k)] += v
+            if not spec["first"]:
+                M[(ghost,)] += 1
+            M[(ghost,)] -= 1
+        lib(build, what="build")
+        scale = 1
+        if spec["derive"] != "none":
+            M = lib({"copy": lambda: M.copy(), "add0": lambda: M + 0, "mul2": lambda: M * 2, "neg2": lambda: -(-M),
+                     "ctor": lambda: type(M)(M)}[spec["derive"]], what="derive:" + spec["derive"])
+            scale = 2 if spec["derive"] == "mul2" else 1
+        terms = dict(M)
+        true_vars = {l for k in terms for l in k}
+        if ghost in true_vars:
+            raise AssertionError("harness: ghost label in terms")
+        order = sorted(true_vars, key=_okey)
+        tab = ref.table(terms, order, spin)
+        vmin = tab.min() if len(order) or terms else 0
+        ctx = "kind=%s derive=%s model=%r reported variables=%r" % (kind, spec["derive"], terms, getattr(M, "variables", None))
+        want_all = bool(spec["all"])
+        sols = []
+        fname = {"QUBO": "solve_qubo_bruteforce", "QUSO": "solve_quso_bruteforce", "QUBOMatrix": "solve_qubo_bruteforce",
+                 "QUSOMatrix": "solve_quso_bruteforce"}.get(kind, "solve_puso_bruteforce" if spin else "solve_pubo_bruteforce")
+        obj, sol = lib(getattr(qv.utils, fname), M, want_all, what=fname)
+        if terms and obj != vmin:
+            raise Violation("stale/objective_not_minimum", "objective %r, minimum %r; %s" % (obj, vmin, ctx))
+        sols += (sol if want_all else [sol])
+        res = lib(M.solve_bruteforce, want_all, what="method/" + kind)
+        sols += (res if want_all else [res])
+        reported = set(M.variables)
+        for s_ in sols:
+            if not isinstance(s_, dict) or not true_vars <= set(s_) or not set(s_) <= reported | true_vars:
+                raise Violation("stale/solution_keys", "solution %r, variables in terms %r; %s" % (s_, sorted(true_vars, key=_okey), ctx))
+            if true_vars and ref.ref_value(terms, s_) != vmin:
+                raise Violation("stale/solution_not_optimal", "solution %r has value %r, minimum %r; %s" % (
+                    s_, ref.ref_value(terms, s_), vmin, ctx))
+    rec.case(spec, spec["derive"] != "none", [kind, "derive=" + spec["derive"], "ghost_first" if spec["first"] else "ghost_last"])
+
+
 def subchecks(tier):
     return [Sub("solve", cases(), run_case, quick=14000, thorough=200000),
-            Sub("problem", problem_cases(), run_problem, quick=600, thorough=6000)]
+            Sub("problem", problem_cases(), run_problem, quick=600, thorough=6000),
+            Sub("stale", stale_cases(), run_stale, quick=2400, thorough=30000)]
